@@ -93,7 +93,15 @@ pub struct SharedState {
     /// Shared lease state between Raft loop (writer) and EmbeddedClient (reader).
     /// Arc ensures the same allocation is shared across role transitions via clone().
     pub lease: Arc<ReadLease>,
+
+    /// Persists the hard state. Installed by `Raft::new`; called from every mutation of
+    /// `current_term` / `voted_for` so that the new value is on stable storage before the node
+    /// answers the RPC (or sends the vote requests) that made it change.
+    hard_state_sink: Option<HardStateSink>,
 }
+
+/// Callback that writes a `HardState` to stable storage (`RaftLog::save_hard_state`).
+pub type HardStateSink = Arc<dyn Fn(&HardState) -> Result<()> + Send + Sync>;
 
 impl Clone for SharedState {
     fn clone(&self) -> Self {
@@ -103,6 +111,7 @@ impl Clone for SharedState {
             commit_index: self.commit_index,
             current_leader_id: AtomicU32::new(self.current_leader_id.load(Ordering::Acquire)),
             lease: Arc::clone(&self.lease),
+            hard_state_sink: self.hard_state_sink.clone(),
         }
     }
 }
@@ -161,6 +170,24 @@ impl SharedState {
             commit_index: last_applied_index_option.unwrap_or(0),
             current_leader_id: AtomicU32::new(0),
             lease: Arc::new(ReadLease::new()),
+            hard_state_sink: None,
+        }
+    }
+
+    /// Installs the callback that persists the hard state (see `hard_state_sink`).
+    pub fn set_hard_state_sink(
+        &mut self,
+        sink: HardStateSink,
+    ) {
+        self.hard_state_sink = Some(sink);
+    }
+
+    /// Raft Figure 2: currentTerm and votedFor are "updated on stable storage before responding to RPCs".
+    fn persist_hard_state(&self) {
+        if let Some(sink) = &self.hard_state_sink
+            && let Err(e) = sink(&self.hard_state)
+        {
+            tracing::error!(?e, "Failed to persist hard state");
         }
     }
 
@@ -194,18 +221,25 @@ impl SharedState {
         &mut self,
         term: u64,
     ) {
-        self.hard_state.current_term = term;
+        if self.hard_state.current_term != term {
+            self.hard_state.current_term = term;
+            self.persist_hard_state();
+        }
     }
 
     fn increase_current_term(&mut self) {
         self.hard_state.current_term += 1;
+        self.persist_hard_state();
     }
 
     pub fn voted_for(&self) -> Result<Option<VotedFor>> {
         Ok(self.hard_state.voted_for)
     }
     pub fn reset_voted_for(&mut self) -> Result<()> {
-        self.hard_state.voted_for = None;
+        if self.hard_state.voted_for.is_some() {
+            self.hard_state.voted_for = None;
+            self.persist_hard_state();
+        }
         Ok(())
     }
     /// Update voted_for and return true if this represents a new leader commitment
@@ -239,7 +273,12 @@ impl SharedState {
             None => new_vote.committed,
         };
 
+        // Hot path (every AppendEntries re-confirms the same leader): persist only real changes.
+        let changed = self.hard_state.voted_for != Some(new_vote);
         self.hard_state.voted_for = Some(new_vote);
+        if changed {
+            self.persist_hard_state();
+        }
         Ok(is_new_commit)
     }
 }
